@@ -115,12 +115,14 @@ PRE = {
     'multi_want': [">>> print('x{k}',", "...       'y')", 'x{k} y'],
     'prose': ['', 'Some prose between the groups.', ''],
     'def': ['>>> def pre{k}(v):', '...     return v', '>>> pre{k}(1)', '1'],
+    'warn': ['>>> import warnings', ">>> warnings.warn('vp: a warning before the failure {k}')"],
 }
 POST = {
     'stmt': ['>>> p{k} = {k}'],
     'stmt_want': [">>> print('post{k}')", 'post{k}'],
 }
-POSITIONS = {'first': ([], ['stmt_want']), 'middle': (['stmt_want', 'multi'], ['stmt']), 'last': (['multi_want', 'stmt', 'def'], [])}
+POSITIONS = {'first': ([], ['stmt_want']), 'middle': (['stmt_want', 'multi'], ['stmt']), 'last': (['multi_want', 'stmt', 'def'], []),
+             'after_warning': (['warn', 'stmt_want'], [])}
 
 
 FUZZ_TOKENS = ['a', 'b c', '<BLANKLINE>', ' ', '  ', '\t', "'q'", 'u"x"', '...', '.', '\x1b[31mred\x1b[0m', '0', 'é', '{}', '%s', '\\']
@@ -200,7 +202,10 @@ def ref_check(lines, case, fail_line):
         return
     a = [i for i, ln in enumerate(lines) if ln.strip() == 'Summary of bad.'][0] + 3
     b = [i for i, ln in enumerate(lines) if ln.strip() == 'def good2():'][0]
-    ln, exc = c08.ref_fail_line(lines, {'spans': [[a + 1, b]]})
+    import warnings
+    with warnings.catch_warnings():
+        warnings.simplefilter('ignore')
+        ln, exc = c08.ref_fail_line(lines, {'spans': [[a + 1, b]]})
     if ln != fail_line:
         raise HarnessError('generator says line {} but CPython reports {} for kind {}'.format(fail_line, ln, kind))
 
@@ -392,7 +397,7 @@ def product(ctx, shard, nshards, cli_every):
             if n % nshards == shard and (cli_every == 1 or pos == 'middle'):
                 ctx.guard(check_case, {'kind': kind, 'pre': pre, 'post': post, 'verbose': 1, 'runner': 'cli'})
     if shard == 0:
-        ctx.exhaustive.append('failure kind ({}) x position (3) x verbosity (4) x runner (run, module with 0 or 4 further failing doctests, named) + one CLI run per kind'.format(len(KINDS)))
+        ctx.exhaustive.append('failure kind ({}) x position (4) x verbosity (4) x runner (run, module with 0 or 4 further failing doctests, named) + one CLI run per kind'.format(len(KINDS)))
 
 
 @composite
